@@ -951,30 +951,21 @@ Proof.
   apply andb_true_iff in W as [A B]. apply Nat.ltb_lt in A, B. split; assumption.
 Qed.
 
-Section Compose.
-  Variable vec : bool.
-  Variable c : circuit.
-  Variable st : list Qc.
-  Variable vn : list vnode.
-  Variable rs : list (nat * (nat * nat)).
-  Hypothesis CA : cache_all [] (keys vec c) 0 = (vn, rs).
-  Hypothesis WF : wf c = true.
-
-  Let ix := idx_of rs.
-  Let es := cedges c.
-
-  Lemma keys_length : length (keys vec c) = length (cnodes c).
-  Proof. unfold keys. destruct vec; [apply map_length|apply seq_length]. Qed.
-
-  Lemma F_mem : forall n, (n < length (cnodes c))%nat ->
-    (snd (ix n) < length (members vn (fst (ix n))))%nat /\ nth (snd (ix n)) (members vn (fst (ix n))) 0%nat = n.
-  Proof. intros n H. apply (member_at_index _ _ _ _ CA). rewrite keys_length. exact H. Qed.
-
-  Lemma F_inj : forall n1 n2, (n1 < length (cnodes c))%nat -> (n2 < length (cnodes c))%nat -> ix n1 = ix n2 -> n1 = n2.
-  Proof. intros n1 n2 H1 H2. apply (index_map_injective _ _ _ _ _ CA); rewrite keys_length; assumption. Qed.
+(* The edge pipeline over abstract "variables": any index map `ix` (variable -> (vector id, unit)) with members lists
+   `memb` that is injective and finds every variable at its index, any edge list over these variables, any valuation. *)
+Section Core.
+  Variable ix : nat -> nat * nat.
+  Variable memb : nat -> list nat.
+  Variable NV : nat.
+  Variable es : list edge.
+  Variable val : nat -> bool -> Qc.
+  Hypothesis Hmem : forall v, (v < NV)%nat ->
+    (snd (ix v) < length (memb (fst (ix v))))%nat /\ nth (snd (ix v)) (memb (fst (ix v))) 0%nat = v.
+  Hypothesis Hinj : forall v1 v2, (v1 < NV)%nat -> (v2 < NV)%nat -> ix v1 = ix v2 -> v1 = v2.
+  Hypothesis Hes : forall e, In e es -> (esrc e < NV)%nat /\ (etgt e < NV)%nat.
 
   Variable n : nat.
-  Hypothesis Hn : (n < length (cnodes c))%nat.
+  Hypothesis Hn : (n < NV)%nat.
   Let j := fst (ix n).
   Let i := snd (ix n).
   Let groups := group_edges ix es.
@@ -984,13 +975,13 @@ Section Compose.
   Lemma tgt_match : forall e, In e es ->
     ((fst (ix (etgt e)) =? j) && (snd (ix (etgt e)) =? i)) = (etgt e =? n).
   Proof.
-    intros e He. destruct (wf_edges c e WF He) as [_ Ht].
+    intros e He. destruct (Hes e He) as [_ Ht].
     destruct (Nat.eqb_spec (etgt e) n) as [->|Hne].
     - subst j i. rewrite !Nat.eqb_refl. reflexivity.
     - apply andb_false_iff.
       destruct (Nat.eqb_spec (fst (ix (etgt e))) j) as [A|A]; [|left; reflexivity].
       destruct (Nat.eqb_spec (snd (ix (etgt e))) i) as [B|B]; [|right; reflexivity].
-      exfalso. apply Hne. apply F_inj; try assumption. subst j i.
+      exfalso. apply Hne. apply Hinj; try assumption. subst j i.
       destruct (ix (etgt e)), (ix n). cbn in *. congruence.
   Qed.
 
@@ -1005,8 +996,9 @@ Section Compose.
     apply (gM_fold bool orb false orb_assoc' orb_comm' orb_false_l' (fun _ _ _ => false) L [] (Forall_nil _) L_aligned).
   Qed.
 
-  Definition ssize_of (m : mrg) : nat := length (members vn (msrc m)).
-  Definition sval_of (m : mrg) (s : nat) : Qc := srcval c st (nth s (members vn (msrc m)) 0%nat) (msv m).
+  Definition ssize_of (m : mrg) : nat := length (memb (msrc m)).
+  Definition sval_of (m : mrg) (s : nat) : Qc := val (nth s (memb (msrc m)) 0%nat) (msv m).
+  Definition eterm (e : edge) : Qc := ew e * val (esrc e) (esv e).
 
   Lemma hits_into : existsb (hits i) ml = existsb (into n) es.
   Proof.
@@ -1025,34 +1017,68 @@ Section Compose.
     rewrite <- (tgt_match e He). destruct (fst (ix (etgt e)) =? j); reflexivity.
   Qed.
 
-  Lemma msum_spec : msum ml sval_of i = qsum (map (edge_term c st) (filter (into n) es)).
+  Lemma msum_spec : msum ml sval_of i = qsum (map eterm (filter (into n) es)).
   Proof.
-    pose (psi := fun sj sv => tval i (fun s => srcval c st (nth s (members vn sj) 0%nat) sv)).
+    pose (psi := fun sj sv => tval i (fun s => val (nth s (memb sj) 0%nat) sv)).
     transitivity (gM Qc Qcplus 0 psi ml).
     { unfold gM. induction ml as [|m l IH]; cbn [msum gsum]; [reflexivity|].
       rewrite IH. f_equal. rewrite tsum_gsum. reflexivity. }
     destruct (gM_fold Qc Qcplus 0 Qcplus_assoc' Qcplus_comm' Qcplus_0_l' psi L [] (Forall_nil _) L_aligned) as [_ E].
     change ml with (fold_left (add_merge true) L []). rewrite E. cbn [gM gsum]. rewrite Qcplus_0_l'.
     pose (phi := fun (key : gkey) => psi (fst (fst key)) (snd (fst key))).
-    change (gsum Qcplus 0 (fun g => gsum Qcplus 0 (phi (gk g)) (gtriples g)) L = qsum (map (edge_term c st) (filter (into n) es))).
+    change (gsum Qcplus 0 (fun g => gsum Qcplus 0 (phi (gk g)) (gtriples g)) L = qsum (map eterm (filter (into n) es))).
     unfold L. rewrite (gsum_filter Qc Qcplus 0 Qcplus_0_l').
     transitivity (gG Qc Qcplus 0 (fun key tr => if snd key =? j then phi key tr else 0) groups).
     { unfold gG. apply gsum_ext. intros g _. rewrite (gsum_if Qc Qcplus 0 Qcplus_0_l'). reflexivity. }
     unfold groups. rewrite (gG_group_edges Qc Qcplus 0 Qcplus_assoc' Qcplus_comm' Qcplus_0_l').
     rewrite qsum_map_gsum. unfold qG. rewrite (gsum_filter Qc Qcplus 0 Qcplus_0_l').
-    apply gsum_ext. intros e He. unfold ekey, etriple, phi, psi, tval, into, edge_term. cbn [fst snd].
-    rewrite <- (tgt_match e He). destruct (wf_edges c e WF He) as [Hs _].
-    destruct (F_mem (esrc e) Hs) as [_ Hm]. fold ix in Hm. rewrite Hm.
+    apply gsum_ext. intros e He. unfold ekey, etriple, phi, psi, tval, into, eterm. cbn [fst snd].
+    rewrite <- (tgt_match e He). destruct (Hes e He) as [Hs _].
+    destruct (Hmem (esrc e) Hs) as [_ Hm]. rewrite Hm.
     destruct (fst (ix (etgt e)) =? j); [|reflexivity]. cbn [andb]. reflexivity.
   Qed.
 
-  Lemma node_input : forall f32 tsize cs,
+  (* the input the pipeline hands to unit i of vector j = what the edge list says about variable n *)
+  Lemma core_input : forall f32 tsize cs rdef,
     all_some (map (fun m => contrib f32 tsize (ssize_of m) m (sval_of m)) ml) = Some cs ->
-    input_of cs (crdef (node_cls c n)) i = spec_input c st n.
+    input_of cs rdef i = if existsb (into n) es then qsum (map eterm (filter (into n) es)) else rdef.
   Proof.
-    intros f32 tsize cs H. pose proof ml_aligned as MA.
+    intros f32 tsize cs rdef H. pose proof ml_aligned as MA.
     rewrite (input_is_edge_sum f32 tsize ssize_of sval_of ml cs _ i MA H).
-    rewrite spec_input_alt. fold es. rewrite hits_into, msum_spec. reflexivity.
+    rewrite hits_into, msum_spec. reflexivity.
+  Qed.
+End Core.
+
+Section Compose.
+  Variable vec : bool.
+  Variable c : circuit.
+  Variable st : list Qc.
+  Variable vn : list vnode.
+  Variable rs : list (nat * (nat * nat)).
+  Hypothesis CA : cache_all [] (keys vec c) 0 = (vn, rs).
+  Hypothesis WF : wf c = true.
+
+  Let ix := idx_of rs.
+
+  Lemma keys_length : length (keys vec c) = length (cnodes c).
+  Proof. unfold keys. destruct vec; [apply map_length|apply seq_length]. Qed.
+
+  Lemma F_mem : forall n, (n < length (cnodes c))%nat ->
+    (snd (ix n) < length (members vn (fst (ix n))))%nat /\ nth (snd (ix n)) (members vn (fst (ix n))) 0%nat = n.
+  Proof. intros n H. apply (member_at_index _ _ _ _ CA). rewrite keys_length. exact H. Qed.
+
+  Lemma F_inj : forall n1 n2, (n1 < length (cnodes c))%nat -> (n2 < length (cnodes c))%nat -> ix n1 = ix n2 -> n1 = n2.
+  Proof. intros n1 n2 H1 H2. apply (index_map_injective _ _ _ _ _ CA); rewrite keys_length; assumption. Qed.
+
+  Lemma node_input : forall n, (n < length (cnodes c))%nat -> forall f32 tsize cs,
+    all_some (map (fun m => contrib f32 tsize (length (members vn (msrc m))) m
+                              (fun s => srcval c st (nth s (members vn (msrc m)) 0%nat) (msv m)))
+                  (merged true (fst (ix n)) (group_edges ix (cedges c)))) = Some cs ->
+    input_of cs (crdef (node_cls c n)) (snd (ix n)) = spec_input c st n.
+  Proof.
+    intros n Hn f32 tsize cs H. rewrite spec_input_alt.
+    apply (core_input ix (members vn) (length (cnodes c)) (cedges c) (srcval c st) F_mem F_inj
+             (fun e He => wf_edges c e WF He) n Hn f32 tsize cs _ H).
   Qed.
 End Compose.
 
@@ -1154,3 +1180,543 @@ Proof. exact (full_when_repaired eq_refl eq_refl). Qed.
 
 Theorem impl_is_spec : forall vec c st, wf c = true -> impl vec c st = Some (spec c st).
 Proof. intros vec c st W. exact (full_of_repaired_model vec c st W). Qed.
+
+
+(* ------------------------------------------------------------------------------------------ 12. multi-operator nodes *)
+(* flattening *)
+Lemma unflat_voff : forall ls n o k, (n < length ls)%nat -> (o < nth n ls 0)%nat ->
+  unflat_l ls (sum_first ls n + o) k = ((k + n)%nat, o).
+Proof.
+  induction ls as [|a ls IH]; intros n o k Hn Ho; [cbn in Hn; lia|].
+  destruct n as [|n]; cbn [sum_first unflat_l nth plus] in *.
+  - destruct (Nat.ltb_spec o a); [|lia]. f_equal. lia.
+  - destruct (Nat.ltb_spec (a + sum_first ls n + o) a); [lia|].
+    replace (a + sum_first ls n + o - a)%nat with (sum_first ls n + o)%nat by lia.
+    rewrite IH by (cbn in Hn; lia || exact Ho). f_equal. lia.
+Qed.
+
+Lemma unflat_inv : forall ls v k, (v < sum_first ls (length ls))%nat ->
+  let r := unflat_l ls v k in
+  (k <= fst r)%nat /\ (fst r - k < length ls)%nat /\ (snd r < nth (fst r - k) ls 0)%nat /\
+  (sum_first ls (fst r - k) + snd r = v)%nat.
+Proof.
+  induction ls as [|a ls IH]; intros v k Hv; [cbn in Hv; lia|].
+  cbn [unflat_l]. destruct (Nat.ltb_spec v a) as [H|H]; cbn [fst snd].
+  - rewrite Nat.sub_diag. cbn [nth sum_first length plus]. refine (conj _ (conj _ (conj _ _))); lia.
+  - cbn [length sum_first] in Hv. destruct (IH (v - a)%nat (S k) ltac:(lia)) as (A & B & C & D).
+    set (r := unflat_l ls (v - a) (S k)) in *. cbn zeta in *.
+    replace (fst r - k)%nat with (S (fst r - S k)) by lia. cbn [length nth sum_first].
+    refine (conj _ (conj _ (conj _ _))); try lia; try exact C.
+Qed.
+
+Lemma sum_first_mono : forall ls n m, (n <= m)%nat -> (sum_first ls n <= sum_first ls m)%nat.
+Proof.
+  induction ls as [|a ls IH]; intros n m H; destruct n, m; cbn [sum_first]; try lia.
+  specialize (IH n m ltac:(lia)). lia.
+Qed.
+
+Lemma sum_first_lt : forall ls n o, (n < length ls)%nat -> (o < nth n ls 0)%nat ->
+  (sum_first ls n + o < sum_first ls (length ls))%nat.
+Proof.
+  induction ls as [|a ls IH]; intros n o Hn Ho; [cbn in Hn; lia|].
+  destruct n; cbn [sum_first nth length] in *; [lia|]. specialize (IH n o ltac:(lia) Ho). lia.
+Qed.
+
+(* structure equality is Leibniz equality *)
+Lemma list_eqb_eq : forall {A} (f : A -> A -> bool), (forall x y, f x y = true -> x = y) ->
+  forall a b, list_eqb f a b = true -> a = b.
+Proof.
+  intros A f Hf. induction a as [|x a IH]; intros [|y b] H; cbn in H; try discriminate; [reflexivity|].
+  apply andb_true_iff in H as [H1 H2]. rewrite (Hf _ _ H1), (IH _ H2). reflexivity.
+Qed.
+Lemma list_eqb_refl : forall {A} (f : A -> A -> bool), (forall x, f x x = true) -> forall a, list_eqb f a a = true.
+Proof. intros A f Hf. induction a; cbn; [reflexivity|]. rewrite Hf, IHa. reflexivity. Qed.
+
+Lemma mono_eqb_eq : forall a b, mono_eqb a b = true -> a = b.
+Proof.
+  intros [c1 x1 k1 r1] [c2 x2 k2 r2] H. unfold mono_eqb in H. cbn in H.
+  repeat (apply andb_true_iff in H as [H ?]). apply Qc_eqb_eq in H.
+  repeat match goal with E : (_ =? _) = true |- _ => apply Nat.eqb_eq in E end. subst. reflexivity.
+Qed.
+Lemma mono_eqb_refl : forall a, mono_eqb a a = true.
+Proof. intros a. unfold mono_eqb. rewrite Qc_eqb_refl, !Nat.eqb_refl. reflexivity. Qed.
+
+Lemma opr_eqb_eq : forall a b, opr_eqb a b = true -> a = b.
+Proof.
+  intros [f1 g1 d1 fd1] [f2 g2 d2 fd2] H. unfold opr_eqb in H. cbn in H.
+  repeat (apply andb_true_iff in H as [H ?]).
+  apply (list_eqb_eq _ mono_eqb_eq) in H. apply Qc_eqb_eq in H1.
+  apply (list_eqb_eq _ (fun x y E => proj1 (Nat.eqb_eq x y) E)) in H0.
+  assert (g1 = g2).
+  { destruct g1, g2; cbn in H2; try discriminate; [|reflexivity]. f_equal. apply (list_eqb_eq _ mono_eqb_eq). exact H2. }
+  subst. reflexivity.
+Qed.
+Lemma opr_eqb_refl : forall a, opr_eqb a a = true.
+Proof.
+  intros [f g d fd]. unfold opr_eqb. cbn. rewrite (list_eqb_refl _ mono_eqb_refl), Qc_eqb_refl.
+  rewrite (list_eqb_refl _ Nat.eqb_refl). destruct g; cbn; [rewrite (list_eqb_refl _ mono_eqb_refl)|]; reflexivity.
+Qed.
+Lemma ops_eqb_eq : forall a b, ops_eqb a b = true -> a = b.
+Proof. apply list_eqb_eq. exact opr_eqb_eq. Qed.
+Lemma ops_eqb_refl : forall a, ops_eqb a a = true.
+Proof. apply list_eqb_refl. exact opr_eqb_refl. Qed.
+
+(* the structural key determines the list of operator structures *)
+Lemma first_same_spec : forall l cl p, In l cl -> nth (first_same l cl p - p) cl [] = l /\ (p <= first_same l cl p)%nat.
+Proof.
+  induction cl as [|l' cl IH]; intros p H; [inversion H|]. cbn [first_same].
+  destruct (ops_eqb l' l) eqn:E.
+  - rewrite Nat.sub_diag. split; [apply ops_eqb_eq; exact E|lia].
+  - destruct H as [->|H]; [rewrite ops_eqb_refl in E; discriminate|].
+    destruct (IH (S p) H) as [A B]. split; [|lia].
+    replace (first_same l cl (S p) - p)%nat with (S (first_same l cl (S p) - S p)) by lia. exact A.
+Qed.
+
+Lemma canon_ops : forall c ci, (ci < length (mccls c))%nat -> cops c (canon c ci) = cops c ci.
+Proof.
+  intros c ci H. unfold canon. destruct (first_same_spec (cops c ci) (mccls c) 0) as [A _].
+  { unfold cops. apply nth_In. exact H. }
+  rewrite Nat.sub_0_r in A. exact A.
+Qed.
+
+(* cache_func's matching of operators: with equal structure lists it is the identity on positions *)
+Lemma skipn_cons_S : forall {A} k (l : list A) s rest, skipn k l = s :: rest -> skipn (S k) l = rest.
+Proof.
+  induction k as [|k IH]; intros l s rest H.
+  - cbn in H. subst l. reflexivity.
+  - destruct l as [|a l]; [discriminate|]. cbn [skipn] in *. apply (IH l s rest H).
+Qed.
+
+Lemma first_free_skip : forall s cached taken p k, (forall q, (p <= q < p + k)%nat -> mem q taken = true) ->
+  (k <= length cached)%nat -> first_free s cached taken p = first_free s (skipn k cached) taken (p + k).
+Proof.
+  intros s cached taken p k. revert cached p. induction k as [|k IH]; intros cached p H Hk.
+  - rewrite Nat.add_0_r. reflexivity.
+  - destruct cached as [|t rest]; [cbn in Hk; lia|]. cbn [first_free skipn].
+    rewrite (H p ltac:(lia)). rewrite andb_false_r. rewrite (IH rest (S p)).
+    + f_equal. lia.
+    + intros q Hq. apply H. lia.
+    + cbn in Hk. lia.
+Qed.
+
+Lemma match_ops_id_gen : forall l k taken, (k <= length l)%nat ->
+  (forall q, mem q taken = true <-> (q < k)%nat) ->
+  match_ops (skipn k l) l taken = map Some (seq k (length l - k)).
+Proof.
+  intros l k. remember (length l - k)%nat as d eqn:Hd. revert k Hd. induction d as [|d IH]; intros k Hd taken Hk Ht.
+  - assert (k = length l) by lia. subst k. rewrite skipn_all. reflexivity.
+  - assert (Hlt : (k < length l)%nat) by lia.
+    destruct (skipn k l) as [|s rest] eqn:Sk.
+    { apply (f_equal (@length opr)) in Sk. rewrite skipn_length in Sk. cbn in Sk. lia. }
+    cbn [match_ops seq map].
+    assert (Hs : s = nth k l dopr).
+    { rewrite <- (firstn_skipn k l) at 1. rewrite app_nth2; rewrite firstn_length_le by lia; [|lia].
+      rewrite Nat.sub_diag, Sk. reflexivity. }
+    rewrite (first_free_skip s l taken 0 k) by (try lia; intros q Hq; apply Ht; lia).
+    rewrite Sk. cbn [first_free plus]. rewrite Hs at 1. rewrite <- Hs, opr_eqb_refl. cbn [andb].
+    assert (Hm : mem k taken = false).
+    { destruct (mem k taken) eqn:E; [apply Ht in E; lia|reflexivity]. }
+    rewrite Hm. cbn [negb]. f_equal.
+    assert (Sk' : rest = skipn (S k) l).
+    { symmetry. apply (skipn_cons_S k l s rest Sk). }
+    rewrite Sk'. apply IH; try lia.
+    intros q. cbn [mem]. rewrite orb_true_iff, Ht, Nat.eqb_eq. lia.
+Qed.
+
+Theorem match_ops_identity : forall l, match_ops l l [] = map Some (seq 0 (length l)).
+Proof.
+  intros l. pose proof (match_ops_id_gen l 0 [] ltac:(lia)) as H. cbn [skipn] in H. rewrite Nat.sub_0_r in H.
+  apply H. intros q. cbn. split; [discriminate|lia].
+Qed.
+
+Lemma rename_with_id : forall cnames names k, length names = (length cnames - k)%nat -> (k <= length cnames)%nat ->
+  rename_with names (map Some (seq k (length cnames - k))) cnames = skipn k cnames.
+Proof.
+  intros cnames names. revert cnames. induction names as [|a names IH]; intros cnames k H Hk.
+  - cbn in H. rewrite <- H. cbn. rewrite skipn_all2 by lia. reflexivity.
+  - cbn [length] in H. destruct (length cnames - k)%nat as [|d] eqn:E; [discriminate|].
+    cbn [seq map rename_with]. replace d with (length cnames - S k)%nat by lia.
+    rewrite IH by lia.
+    assert (Hlt : (k < length cnames)%nat) by lia.
+    rewrite <- (firstn_skipn k cnames) at 1.
+    rewrite app_nth2; rewrite firstn_length_le by lia; [|lia]. rewrite Nat.sub_diag.
+    destruct (skipn k cnames) as [|b rest] eqn:Sk.
+    { apply (f_equal (@length nat)) in Sk. rewrite skipn_length in Sk. cbn in Sk. lia. }
+    cbn [nth]. f_equal. apply (skipn_cons_S k cnames b rest Sk).
+Qed.
+
+Lemma index_of_nth : forall l o d, NoDup l -> (o < length l)%nat -> index_of (nth o l d) l = o.
+Proof.
+  induction l as [|b l IH]; intros o d Hnd Ho; [cbn in Ho; lia|].
+  inversion Hnd as [|? ? Hn Hd]; subst. destruct o; cbn [nth index_of].
+  - rewrite Nat.eqb_refl. reflexivity.
+  - destruct (Nat.eqb_spec (nth o l d) b) as [E|E].
+    + exfalso. apply Hn. rewrite <- E. apply nth_In. cbn in Ho. lia.
+    + rewrite IH; [reflexivity|exact Hd|cbn in Ho; lia].
+Qed.
+
+(* cache_func: every member of a vector node is a node that was handed exactly that (vector node, index) *)
+Lemma extend_prov : forall vn key n j0 vn' j a b, extend vn key n j0 = (vn', (j, (a, b))) ->
+  forall j' i', (i' < length (members vn' j'))%nat -> (i' < length (members vn j'))%nat \/ (j' = (j - j0)%nat /\ i' = a).
+Proof.
+  induction vn as [|[k l] rest IH]; intros key n j0 vn' j a b H j' i' Hi; cbn [extend] in H.
+  - inversion H; subst. rewrite Nat.sub_diag. destruct j' as [|j'].
+    + unfold members in Hi. cbn in Hi. right. split; lia.
+    + rewrite members_cons_S, members_nil in Hi. cbn in Hi. lia.
+  - destruct (k =? key).
+    + inversion H; subst. rewrite Nat.sub_diag. destruct j' as [|j'].
+      * unfold members in *. cbn [nth snd] in *. rewrite app_length in Hi. cbn in Hi.
+        destruct (Nat.lt_ge_cases i' (length l)); [left; assumption|right; split; lia].
+      * rewrite !members_cons_S in *. left. exact Hi.
+    + destruct (extend rest key n (S j0)) as [rest' r] eqn:E. inversion H; subst.
+      destruct (extend_spec _ _ _ _ _ _ _ _ E) as (_ & Hj & _).
+      destruct j' as [|j'].
+      * unfold members in *. cbn [nth snd] in *. left. exact Hi.
+      * rewrite !members_cons_S in *. destruct (IH _ _ _ _ _ _ _ E j' i' Hi) as [A|[A B]]; [left; exact A|right].
+        split; lia.
+Qed.
+
+Lemma cache_all_prov : forall ks vn n0 vn' rs, cache_all vn ks n0 = (vn', rs) ->
+  forall j i', (i' < length (members vn' j))%nat ->
+    (i' < length (members vn j))%nat \/
+    exists m, (m < length ks)%nat /\ nth i' (members vn' j) 0%nat = (n0 + m)%nat /\
+              fst (nth m rs rng_default) = j /\ fst (snd (nth m rs rng_default)) = i'.
+Proof.
+  induction ks as [|key ks IH]; intros vn n0 vn' rs H j i' Hi; cbn [cache_all] in H.
+  - inversion H; subst. left. exact Hi.
+  - destruct (extend vn key n0 0) as [vn1 r] eqn:E1.
+    destruct (cache_all vn1 ks (S n0)) as [vn2 rs2] eqn:E2. inversion H; subst.
+    destruct r as [j1 [a b]].
+    destruct (extend_spec _ _ _ _ _ _ _ _ E1) as (_ & _ & Ha & Hn & _). rewrite Nat.sub_0_r in Ha, Hn.
+    destruct (cache_all_spec _ _ _ _ _ E2) as (_ & Hp & _).
+    destruct (IH _ _ _ _ E2 j i' Hi) as [A|(m & Hm & Hx & Hj & Hi')].
+    + destruct (extend_prov _ _ _ _ _ _ _ _ E1 j i' A) as [B|[B C]]; [left; exact B|right].
+      rewrite Nat.sub_0_r in B. subst j i'. exists 0%nat. cbn [length nth fst snd].
+      destruct (Hp j1 a Ha) as [_ Hx]. rewrite Hx, Hn. refine (conj _ (conj _ (conj eq_refl eq_refl))); lia.
+    + right. exists (S m). cbn [length nth]. refine (conj _ (conj _ (conj Hj Hi'))); [lia|rewrite Hx; lia].
+Qed.
+
+Theorem member_has_index : forall ks vn rs j i', cache_all [] ks 0 = (vn, rs) -> (i' < length (members vn j))%nat ->
+  (nth i' (members vn j) 0 < length ks)%nat /\ idx_of rs (nth i' (members vn j) 0%nat) = (j, i').
+Proof.
+  intros ks vn rs j i' H Hi. destruct (cache_all_prov _ _ _ _ _ H j i' Hi) as [A|(m & Hm & Hx & Hj & Hi')].
+  - rewrite members_nil in A. cbn in A. lia.
+  - cbn in Hx. rewrite Hx. split; [exact Hm|]. unfold idx_of. fold rng_default. rewrite Hj, Hi'. reflexivity.
+Qed.
+
+Lemma contrib_true : forall tsize ssize m sval, contrib true tsize ssize m sval = Some (contrib_now tsize ssize m sval).
+Proof. intros. unfold contrib, contrib_now. cbn [negb andb]. destruct (dot_edge _ _ _); reflexivity. Qed.
+
+Lemma all_some_map_some : forall {A B} (f : A -> B) l, all_some (map (fun x => Some (f x)) l) = Some (map f l).
+Proof. induction l; cbn [map all_some]; [reflexivity|]. rewrite IHl. reflexivity. Qed.
+
+Lemma nth_map_in : forall {A} (f : nat -> A) l i d, (i < length l)%nat -> nth i (map f l) d = f (nth i l 0%nat).
+Proof.
+  intros A f l i d H. rewrite (nth_indep _ d (f 0%nat)) by (rewrite map_length; exact H). apply map_nth.
+Qed.
+
+Lemma nth_map_gen : forall {A B} (f : A -> B) l n d d', (n < length l)%nat -> nth n (map f l) d = f (nth n l d').
+Proof.
+  intros A B f l n d d' H. rewrite (nth_indep _ d (f d')) by (rewrite map_length; exact H). apply map_nth.
+Qed.
+
+Lemma existsb_filter_nil_conv : forall {A} (p : A -> bool) l, filter p l = [] -> existsb p l = false.
+Proof.
+  induction l as [|a l IH]; cbn [filter existsb]; intros H; [reflexivity|].
+  destruct (p a); [discriminate|]. apply IH. exact H.
+Qed.
+
+Lemma flat_map_ext_in' : forall {A B} (f g : A -> list B) l, (forall x, In x l -> f x = g x) -> flat_map f l = flat_map g l.
+Proof.
+  induction l as [|a l IH]; intros H; cbn [flat_map]; [reflexivity|].
+  rewrite (H a (or_introl eq_refl)), IH by (intros; apply H; right; assumption). reflexivity.
+Qed.
+
+Lemma hd_nth0 : forall (l : list nat) d, hd d l = nth 0 l d.
+Proof. destruct l; reflexivity. Qed.
+
+Lemma filter_map_comm : forall {A B} (f : A -> B) (p : B -> bool) (qq : A -> bool) l,
+  (forall x, In x l -> p (f x) = qq x) -> filter p (map f l) = map f (filter qq l).
+Proof.
+  induction l as [|a l IH]; intros H; cbn [map filter]; [reflexivity|].
+  rewrite (H a (or_introl eq_refl)). rewrite IH by (intros; apply H; right; assumption).
+  destruct (qq a); reflexivity.
+Qed.
+
+Lemma existsb_map_comm : forall {A B} (f : A -> B) (p : B -> bool) (qq : A -> bool) l,
+  (forall x, In x l -> p (f x) = qq x) -> existsb p (map f l) = existsb qq l.
+Proof.
+  induction l as [|a l IH]; intros H; cbn [map existsb]; [reflexivity|].
+  rewrite (H a (or_introl eq_refl)), IH by (intros; apply H; right; assumption). reflexivity.
+Qed.
+
+Section MultiOp.
+  Variable vec : bool.
+  Variable c : mcircuit.
+  Variable st : list Qc.
+  Variable vn : list vnode.
+  Variable rs : list (nat * (nat * nat)).
+  Hypothesis CA : cache_all [] (mkeys vec c) 0 = (vn, rs).
+  Hypothesis WF : mwf c = true.
+
+  Let ixn := idx_of rs.
+  Let N := length (mcnodes c).
+  Let k := MCompiled vn ixn.
+
+  Lemma mkeys_length : length (mkeys vec c) = N.
+  Proof. unfold mkeys. destruct vec; [apply map_length|apply seq_length]. Qed.
+
+  Lemma wf_node : forall n, (n < N)%nat ->
+    (mncls (mn c n) < length (mccls c))%nat /\ length (mnames (mn c n)) = mnops c n /\ NoDup (mnames (mn c n)).
+  Proof.
+    intros n Hn. pose proof WF as W0. unfold mwf in W0. apply andb_true_iff in W0 as [W _]. apply andb_true_iff in W as [W _].
+    rewrite forallb_forall in W. specialize (W (mn c n) (nth_In _ _ Hn)).
+    apply andb_true_iff in W as [W W3]. apply andb_true_iff in W as [W1 W2].
+    apply Nat.ltb_lt in W1. apply Nat.eqb_eq in W2. split; [exact W1|]. split; [exact W2|apply nodupb_NoDup; exact W3].
+  Qed.
+
+  Lemma wf_feed : forall n o p', (n < N)%nat -> In p' (ofeed (mop c n o)) -> (p' < mnops c n)%nat.
+  Proof.
+    intros n o p' Hn Hp. destruct (Nat.lt_ge_cases o (mnops c n)) as [Ho|Ho].
+    - pose proof WF as W0. unfold mwf in W0. apply andb_true_iff in W0 as [W _]. apply andb_true_iff in W as [_ W].
+      rewrite forallb_forall in W. destruct (wf_node n Hn) as (Hc & _).
+      specialize (W (mops c n) (nth_In _ _ Hc)). rewrite forallb_forall in W.
+      specialize (W (mop c n o) (nth_In _ _ Ho)). rewrite forallb_forall in W.
+      apply Nat.ltb_lt. apply W. exact Hp.
+    - unfold mop in Hp. rewrite nth_overflow in Hp by exact Ho. inversion Hp.
+  Qed.
+
+  Lemma wf_edge : forall e, In e (mcedges c) ->
+    (mesrc e < N)%nat /\ (metgt e < N)%nat /\ (meso e < mnops c (mesrc e))%nat /\ (meto e < mnops c (metgt e))%nat /\
+    ofeed (mop c (metgt e) (meto e)) = [].
+  Proof.
+    intros e He. pose proof WF as W0. unfold mwf in W0. apply andb_true_iff in W0 as [_ W]. rewrite forallb_forall in W.
+    specialize (W e He). repeat (apply andb_true_iff in W as [W ?]).
+    repeat match goal with E : (_ <? _) = true |- _ => apply Nat.ltb_lt in E end.
+    destruct (ofeed (mop c (metgt e) (meto e))); [|discriminate H]. exact (conj W (conj H2 (conj H1 (conj H0 eq_refl)))).
+  Qed.
+
+  Lemma G_mem : forall n, (n < N)%nat ->
+    (snd (ixn n) < length (members vn (fst (ixn n))))%nat /\ nth (snd (ixn n)) (members vn (fst (ixn n))) 0%nat = n.
+  Proof. intros n H. apply (member_at_index _ _ _ _ CA). rewrite mkeys_length. exact H. Qed.
+
+  Lemma G_inj : forall n1 n2, (n1 < N)%nat -> (n2 < N)%nat -> ixn n1 = ixn n2 -> n1 = n2.
+  Proof. intros n1 n2 H1 H2. apply (index_map_injective _ _ _ _ _ CA); rewrite mkeys_length; assumption. Qed.
+
+  Lemma G_conv : forall j i', (i' < length (members vn j))%nat ->
+    (nth i' (members vn j) 0 < N)%nat /\ ixn (nth i' (members vn j) 0%nat) = (j, i').
+  Proof. intros j i' H. rewrite <- mkeys_length. apply (member_has_index _ _ _ _ _ CA H). Qed.
+
+  Lemma same_ops : forall n1 n2, (n1 < N)%nat -> (n2 < N)%nat -> fst (ixn n1) = fst (ixn n2) -> mops c n1 = mops c n2.
+  Proof.
+    intros n1 n2 H1 H2 E.
+    pose proof (same_vector_same_key _ _ _ n1 n2 CA ltac:(rewrite mkeys_length; exact H1) ltac:(rewrite mkeys_length; exact H2) E) as K.
+    unfold mkeys in K. destruct vec.
+    - rewrite !(nth_map_gen _ _ _ 0%nat dmnode) in K by assumption. fold (mn c n1) in K. fold (mn c n2) in K.
+      destruct (wf_node n1 H1) as (C1 & _). destruct (wf_node n2 H2) as (C2 & _).
+      unfold mops. rewrite <- (canon_ops c _ C1), <- (canon_ops c _ C2), K. reflexivity.
+    - rewrite !seq_nth in K by assumption. cbn in K. subst. reflexivity.
+  Qed.
+
+  Lemma cached_facts : forall n, (n < N)%nat -> let n0 := cached k (fst (ixn n)) in
+    (n0 < N)%nat /\ ixn n0 = (fst (ixn n), 0%nat) /\ mops c n0 = mops c n.
+  Proof.
+    intros n Hn n0. destruct (G_mem n Hn) as [Hi _].
+    assert (H0 : (0 < length (members vn (fst (ixn n))))%nat) by lia.
+    destruct (G_conv _ _ H0) as [A B].
+    assert (E : n0 = nth 0 (members vn (fst (ixn n))) 0%nat).
+    { unfold n0, cached, k. cbn [mvn]. apply hd_nth0. }
+    rewrite E. split; [exact A|]. split; [exact B|]. apply same_ops; try assumption. rewrite B. reflexivity.
+  Qed.
+
+  (* fix D58: the simultaneous renaming sends the o-th operator of a merged node to the o-th operator of the cached node *)
+  Lemma rename_names_cached : forall n0 n, (n0 < N)%nat -> (n < N)%nat -> mops c n0 = mops c n ->
+    rename_names c n0 n = mnames (mn c n0).
+  Proof.
+    intros n0 n H0 Hn E. unfold rename_names. rewrite E, match_ops_identity.
+    destruct (wf_node n0 H0) as (_ & L0 & _). destruct (wf_node n Hn) as (_ & L & _).
+    unfold mnops in *. rewrite E in L0.
+    pose proof (rename_with_id (mnames (mn c n0)) (mnames (mn c n)) 0) as R.
+    rewrite Nat.sub_0_r in R. rewrite L0 in R. cbn [skipn] in R. apply R; lia.
+  Qed.
+
+  Lemma vpos_id : forall n0 n o, (n0 < N)%nat -> (n < N)%nat -> mops c n0 = mops c n -> (o < mnops c n)%nat -> vpos c n0 n o = o.
+  Proof.
+    intros n0 n o H0 Hn E Ho. unfold vpos. destruct (n0 =? n); [reflexivity|].
+    rewrite rename_names_cached by assumption. destruct (wf_node n0 H0) as (_ & L0 & ND).
+    apply index_of_nth; [exact ND|]. rewrite L0. unfold mnops. rewrite E. exact Ho.
+  Qed.
+
+  Lemma fpos_id : forall n0 n p, (n0 < N)%nat -> (n < N)%nat -> mops c n0 = mops c n -> (p < mnops c n)%nat -> fpos c n0 n p = p.
+  Proof.
+    intros n0 n p H0 Hn E Hp. unfold fpos. destruct (n0 =? n); [reflexivity|].
+    rewrite rename_names_cached by assumption. destruct (wf_node n0 H0) as (_ & L0 & ND).
+    apply index_of_nth; [exact ND|]. rewrite L0. unfold mnops. rewrite E. exact Hp.
+  Qed.
+
+  (* flattened variables *)
+  Lemma oplens_length : length (oplens c) = N.
+  Proof. unfold oplens. apply map_length. Qed.
+
+  Lemma oplens_nth : forall n, (n < N)%nat -> nth n (oplens c) 0%nat = mnops c n.
+  Proof.
+    intros n H. unfold oplens, mnops, mops, mn. rewrite (nth_map_gen _ _ _ 0%nat dmnode) by exact H. reflexivity.
+  Qed.
+
+  Lemma flat_ok : forall n o, (n < N)%nat -> (o < mnops c n)%nat ->
+    (voff c n + o < nvars c)%nat /\ unflat c (voff c n + o) = (n, o).
+  Proof.
+    intros n o Hn Ho. unfold voff, nvars, unflat. fold N. rewrite <- oplens_length. split.
+    - apply sum_first_lt; [rewrite oplens_length; exact Hn|rewrite oplens_nth; assumption].
+    - rewrite unflat_voff; [reflexivity|rewrite oplens_length; exact Hn|rewrite oplens_nth; assumption].
+  Qed.
+
+  Lemma unflat_ok : forall v, (v < nvars c)%nat ->
+    (fst (unflat c v) < N)%nat /\ (snd (unflat c v) < mnops c (fst (unflat c v)))%nat /\
+    (voff c (fst (unflat c v)) + snd (unflat c v))%nat = v.
+  Proof.
+    intros v Hv. unfold nvars, voff in Hv. fold N in Hv. rewrite <- oplens_length in Hv.
+    destruct (unflat_inv (oplens c) v 0 Hv) as (_ & B & C & D). fold (unflat c v) in *. cbn zeta in *.
+    rewrite Nat.sub_0_r in *. rewrite oplens_length in B. rewrite oplens_nth in C by exact B.
+    split; [exact B|]. split; [exact C|exact D].
+  Qed.
+
+  (* the variable-level index map of the compiled multi-operator circuit *)
+  Lemma vix_eq : forall n o, (n < N)%nat -> (o < mnops c n)%nat ->
+    vix c k (voff c n + o) = ((voff c (cached k (fst (ixn n))) + o)%nat, snd (ixn n)).
+  Proof.
+    intros n o Hn Ho. unfold vix. destruct (flat_ok n o Hn Ho) as [_ U]. rewrite U. cbn [mixn k].
+    destruct (ixn n) as [j i] eqn:IX. cbn [fst snd].
+    pose proof (cached_facts n Hn) as CF. rewrite IX in CF. cbn [fst] in CF. destruct CF as (A & _ & E).
+    rewrite vpos_id by assumption. reflexivity.
+  Qed.
+
+  Lemma H_mem : forall v, (v < nvars c)%nat ->
+    (snd (vix c k v) < length (vmemb c k (fst (vix c k v))))%nat /\
+    nth (snd (vix c k v)) (vmemb c k (fst (vix c k v))) 0%nat = v.
+  Proof.
+    intros v Hv. destruct (unflat_ok v Hv) as (Hn & Ho & Ev).
+    set (n := fst (unflat c v)) in *. set (o := snd (unflat c v)) in *.
+    rewrite <- Ev. rewrite (vix_eq n o Hn Ho). cbn [fst snd].
+    pose proof (cached_facts n Hn) as CF. cbn zeta in CF. destruct CF as (A & B & E).
+    set (n0 := cached k (fst (ixn n))) in *.
+    assert (Ho0 : (o < mnops c n0)%nat) by (unfold mnops; rewrite E; exact Ho).
+    unfold vmemb. destruct (flat_ok n0 o A Ho0) as [_ U]. rewrite U. cbn [mixn k]. rewrite B. cbn [fst].
+    destruct (G_mem n Hn) as [Hi Hm]. rewrite map_length. split; [exact Hi|].
+    rewrite (nth_map_in _ _ _ _ Hi). rewrite Hm. rewrite fpos_id by assumption. reflexivity.
+  Qed.
+
+  Lemma H_inj : forall v1 v2, (v1 < nvars c)%nat -> (v2 < nvars c)%nat -> vix c k v1 = vix c k v2 -> v1 = v2.
+  Proof.
+    intros v1 v2 H1 H2 E. destruct (unflat_ok v1 H1) as (Hn1 & Ho1 & E1). destruct (unflat_ok v2 H2) as (Hn2 & Ho2 & E2).
+    set (n1 := fst (unflat c v1)) in *. set (o1 := snd (unflat c v1)) in *.
+    set (n2 := fst (unflat c v2)) in *. set (o2 := snd (unflat c v2)) in *.
+    rewrite <- E1, <- E2 in E. rewrite (vix_eq n1 o1 Hn1 Ho1), (vix_eq n2 o2 Hn2 Ho2) in E.
+    injection E as EJ EI.
+    pose proof (cached_facts n1 Hn1) as C1. pose proof (cached_facts n2 Hn2) as C2. cbn zeta in C1, C2.
+    destruct C1 as (A1 & B1 & F1). destruct C2 as (A2 & B2 & F2).
+    set (m1 := cached k (fst (ixn n1))) in *. set (m2 := cached k (fst (ixn n2))) in *.
+    assert (P1 : (o1 < mnops c m1)%nat) by (unfold mnops; rewrite F1; exact Ho1).
+    assert (P2 : (o2 < mnops c m2)%nat) by (unfold mnops; rewrite F2; exact Ho2).
+    destruct (flat_ok m1 o1 A1 P1) as [_ U1]. destruct (flat_ok m2 o2 A2 P2) as [_ U2].
+    assert (EU : unflat c (voff c m1 + o1) = unflat c (voff c m2 + o2)) by (f_equal; exact EJ).
+    rewrite U1, U2 in EU. injection EU as Em Eo.
+    assert (EX : ixn n1 = ixn n2).
+    { assert (Ef : fst (ixn n1) = fst (ixn n2)) by (rewrite Em in B1; rewrite B1 in B2; injection B2; auto).
+      assert (Es : snd (ixn n1) = snd (ixn n2)) by exact EI.
+      rewrite (surjective_pairing (ixn n1)), (surjective_pairing (ixn n2)), Ef, Es. reflexivity. }
+    rewrite <- E1, <- E2. rewrite (G_inj n1 n2 Hn1 Hn2 EX), Eo. reflexivity.
+  Qed.
+
+  Lemma H_es : forall e, In e (vedges c) -> (esrc e < nvars c)%nat /\ (etgt e < nvars c)%nat.
+  Proof.
+    intros e He. unfold vedges in He. apply in_map_iff in He as (e0 & <- & He0).
+    destruct (wf_edge e0 He0) as (A & B & C & D & _). unfold vedge. cbn [esrc etgt].
+    split; [apply (flat_ok _ _ A C)|apply (flat_ok _ _ B D)].
+  Qed.
+
+  Lemma into_vedge : forall n o e, (n < N)%nat -> (o < mnops c n)%nat -> In e (mcedges c) ->
+    into (voff c n + o) (vedge c e) = minto n o e.
+  Proof.
+    intros n o e Hn Ho He. destruct (wf_edge e He) as (_ & B & _ & D & _). unfold into, vedge, minto. cbn [etgt].
+    destruct (Nat.eqb_spec (voff c (metgt e) + meto e) (voff c n + o)) as [E|E].
+    - destruct (flat_ok _ _ B D) as [_ U1]. destruct (flat_ok n o Hn Ho) as [_ U2]. rewrite E in U1. rewrite U1 in U2.
+      injection U2 as Ea Eb. rewrite Ea, Eb, !Nat.eqb_refl. reflexivity.
+    - destruct (Nat.eqb_spec (metgt e) n) as [Ea|]; [|reflexivity].
+      destruct (Nat.eqb_spec (meto e) o) as [Eb|]; [|reflexivity]. exfalso. apply E. rewrite Ea, Eb. reflexivity.
+  Qed.
+
+  (* the vectorized / non-vectorized compilation of a multi-operator circuit computes the vector field of the edge list *)
+  Lemma mimpl_var : forall n o, (n < N)%nat -> (o < mnops c n)%nat ->
+    let groups := group_edges (vix c k) (vedges c) in
+    let j := fst (ixn n) in let i := snd (ixn n) in let n0 := cached k j in let p := vpos c n0 n o in
+    peval (of_ (mop c n0 p)) (mvar_x c st n (fpos c n0 n p)) (mpar c n (fpos c n0 n p))
+          (nth i (mvec_inputs vec c st k groups j p) 0) = mderiv c st n o (mspec_input c st n o).
+  Proof.
+    intros n o Hn Ho groups j i n0 p.
+    pose proof (cached_facts n Hn) as CF. cbn zeta in CF. fold j in CF. fold n0 in CF. destruct CF as (A & B & E).
+    assert (Hp : p = o) by (apply vpos_id; assumption). rewrite Hp.
+    rewrite fpos_id by assumption.
+    assert (Eop : mop c n0 o = mop c n o) by (unfold mop; rewrite E; reflexivity).
+    unfold mderiv. rewrite Eop. f_equal.
+    destruct (G_mem n Hn) as [Hi Hm]. fold j in Hi, Hm. fold i in Hi, Hm.
+    unfold mvec_inputs, mspec_input. fold n0. cbn [mvn k]. rewrite Eop.
+    destruct (ofeed (mop c n o)) as [|f0 fd] eqn:FD.
+    - unfold minputs. rewrite nth_map_seq by exact Hi.
+      set (ml := merged true (voff c n0 + o) groups).
+      pose proof (vix_eq n o Hn Ho) as VX. fold j in VX. fold n0 in VX. fold i in VX.
+      pose proof (core_input (vix c k) (vmemb c k) (nvars c) (vedges c) (vval c st) H_mem H_inj H_es
+                    (voff c n + o)%nat (proj1 (flat_ok n o Hn Ho)) true (if vec then length (members vn j) else 0%nat)) as CI.
+      rewrite VX in CI. cbn [fst snd] in CI. fold groups in CI. fold ml in CI.
+      rewrite (CI _ (ordef (mop c n o))).
+      + unfold vedges.
+        rewrite (existsb_map_comm (vedge c) (into (voff c n + o)) (minto n o)) by (intros; apply into_vedge; assumption).
+        rewrite (filter_map_comm (vedge c) (into (voff c n + o)) (minto n o)) by (intros; apply into_vedge; assumption).
+        rewrite map_map.
+        destruct (filter (minto n o) (mcedges c)) as [|e0 inc] eqn:F.
+        * rewrite (existsb_filter_nil_conv _ _ F). reflexivity.
+        * assert (X : existsb (minto n o) (mcedges c) = true).
+          { apply existsb_exists. exists e0. assert (I0 : In e0 (filter (minto n o) (mcedges c))) by (rewrite F; left; reflexivity).
+            apply filter_In in I0. exact I0. }
+          rewrite X. f_equal. apply map_ext_in. intros e He. rewrite <- F in He. apply filter_In in He as [He _].
+          destruct (wf_edge e He) as (S1 & _ & S3 & _). unfold eterm, vedge, vval, ew, mew. cbn [esrc esv ewo].
+          destruct (flat_ok _ _ S1 S3) as [_ U]. rewrite U. reflexivity.
+      + unfold ssize_of, sval_of. rewrite <- all_some_map_some. f_equal. apply map_ext. intros m. apply contrib_true.
+    - rewrite (nth_map_in _ _ _ _ Hi). rewrite Hm. f_equal. apply map_ext_in. intros p' Hp'.
+      rewrite fpos_id; try assumption; [reflexivity|]. apply (wf_feed n o p' Hn). rewrite FD. exact Hp'.
+  Qed.
+End MultiOp.
+
+Theorem mimpl_is_mspec : forall vec c st, mwf c = true -> mimpl vec c st = mspec c st.
+Proof.
+  intros vec c st WF. unfold mimpl, mspec, mcompile.
+  destruct (cache_all [] (mkeys vec c) 0) as [vn rs] eqn:CA.
+  apply flat_map_ext_in'. intros n Hn. apply in_seq in Hn. destruct Hn as [_ Hn]. cbn in Hn.
+  apply map_ext_in. intros o Ho. apply in_seq in Ho. destruct Ho as [_ Ho]. cbn in Ho.
+  cbn [mixn]. destruct (idx_of rs n) as [j i] eqn:IX.
+  pose proof (mimpl_var vec c st vn rs CA WF n o Hn Ho) as MV. cbn zeta in MV. rewrite IX in MV. cbn [fst snd] in MV.
+  exact MV.
+Qed.
+
+(* hence vectorize=True == vectorize=False for multi-operator node types, structurally identical operators under
+   different names and types that differ only in operator multiplicity included *)
+Theorem mimpl_vec_equals_nonvec : forall c st, mwf c = true -> mimpl true c st = mimpl false c st.
+Proof. intros c st W. rewrite !mimpl_is_mspec by exact W. reflexivity. Qed.
+
+(* non-vacuity: node types {s0,s1,m} and {s1,s2,m} (same structure, operator names shifted: the rename chain of D58) and
+   {s0,m} (differs only in the multiplicity of an operator structure); weightless and weighted edges *)
+Definition mS : opr := Opr [Mono (q 1) 0 1 1; Mono (q (-1)) 1 0 0] None 0 [].
+Definition mM (fd : list nat) : opr := Opr [Mono (q 1) 0 1 1; Mono (q (-1)) 1 0 0] None 0 fd.
+Definition mw_ok : mcircuit :=
+  MCirc [[mS; mS; mM [0; 1]%nat]; [mS; mS; mM [0; 1]%nat]; [mS; mM [0]%nat]]
+        [MNode 0 [0; 1; 100]%nat [q 1; q 2; q 3]; MNode 1 [1; 2; 100]%nat [q 4; q 5; q 6]; MNode 2 [0; 100]%nat [q 7; q 8];
+         MNode 1 [1; 2; 100]%nat [q 9; q 10; q 11]]
+        [MEdge 0 2 false 1 0 (Some (q 2)); MEdge 1 2 false 0 1 None; MEdge 2 1 false 3 1 (Some (q 3));
+         MEdge 3 2 false 2 0 (Some (mkq 1 2)); MEdge 0 2 false 3 1 (Some (q 1))]%nat.
+Definition mst_ok : list Qc := map (fun i => q (Z.of_nat i)) (seq 1 11).
+Lemma multiop_nonvacuous :
+  mwf mw_ok = true /\ mkeys true mw_ok = [0; 0; 2; 0]%nat /\
+  qlist_eqb (mimpl true mw_ok mst_ok) (mspec mw_ok mst_ok) = true /\
+  qlist_eqb (mimpl false mw_ok mst_ok) (mspec mw_ok mst_ok) = true /\
+  qlist_eqb (mspec mw_ok mst_ok) [q (-1); q 10; q 6; q 20; q (-5); q 48; mkq 63 2; q 48; q (-9); q 260; q 198] = true.
+Proof. repeat (match goal with |- _ /\ _ => split end); vm_compute; reflexivity. Qed.
